@@ -9,4 +9,5 @@ Extraction "model.ml"
   (* Codec *) enc size dec has_type ty_ok guards_fixed guards_pinned utf8_valid
   (* Db *) db_new exec transaction elements out_edges in_edges node_count edge_from edge_to
            imap_key kvs_get dbv_eqb dbv_cmp
-  (* FileWal *) trace crash recover walrev_fixed walrev_pinned well_positioned.
+  (* FileWal *) trace crash recover walrev_fixed walrev_pinned well_positioned
+  (* Storage *) with_data st_step live_values ops_file ops_mem mem_raw file_raw mapped_raw spec_init spec_step accepts tight_len st_run.
